@@ -101,6 +101,14 @@ mut("C17", "unmarshal_skips_validation", SS+"eventtrigger.go", """	if err := d.V
 		return fmt.Errorf("invalid EventTriggerDefinitionRLP: %w", err)
 	}
 	return nil""")
+# ---- C05 (dispatch between validator and handlers) ----
+P2P = "rolling-shutter/p2p/messaging.go"
+mut("C05", "second_handler_registered_nil", P2P, "m.handlerRegistry[messageType] = append(fns, handlerFunc)",
+    "var hf HandlerFunc\n\t\tif !exists {\n\t\t\thf = handlerFunc\n\t\t}\n\t\tm.handlerRegistry[messageType] = append(fns, hf)")
+mut("C05", "dispatch_loop_off_by_one", P2P, """	for _, handlerFunc := range fns {
+		msgs, err := handlerFunc(ctx, msg)""", """	for i := 0; i <= len(fns); i++ {
+		handlerFunc := fns[i]
+		msgs, err := handlerFunc(ctx, msg)""")
 
 # ---- C10 (start-up: InitChain establishes the representation invariant) ----
 APP = "rolling-shutter/app/app.go"
@@ -136,6 +144,15 @@ H = []
 def harm(prop, name, file, old, new, all=False):
     H.append((prop, name, file, old, new, all))
 
+harm("C05", "dispatch_index_loop", "rolling-shutter/p2p/messaging.go", """	for _, handlerFunc := range fns {
+		msgs, err := handlerFunc(ctx, msg)""", """	for i := 0; i < len(fns); i++ {
+		handlerFunc := fns[i]
+		msgs, err := handlerFunc(ctx, msg)""")
+harm("C05", "addhandler_no_empty_slice", "rolling-shutter/p2p/messaging.go", """		if !exists {
+			fns = []HandlerFunc{}
+		}
+		m.handlerRegistry[messageType] = append(fns, handlerFunc)""", """		_ = exists
+		m.handlerRegistry[messageType] = append(fns, handlerFunc)""")
 harm("C14", "rename_accumulator", SE+"marshal.go", "hexstrings", "parts", True)
 harm("C14", "log_line_in_decoder", SE+"marshal.go", """	v, err := strconv.ParseUint(val, 10, 64)
 	if err != nil {""", """	v, err := strconv.ParseUint(val, 10, 64)
